@@ -306,10 +306,76 @@ fn head_fate(rest: &[u8]) -> (Fate, usize) {
     if bad_marker { return (Fate::Refuse, len); }
     if is_rfc2918_rr(f) { return (Fate::Deliver, len); }
     if len > 4096 || is_wellformed_rr(f) { return (Fate::Either, len); }
+    // (audit r5 S6d) decided WITHOUT the implementation wherever RFC 4271 section 4 decides it: KEEPALIVE / NOTIFICATION by
+    // their fixed layout, an OPEN that the strict reference decoder of C03 accepts, an UPDATE that only withdraws IPv4
+    // prefixes (or is empty).  A well-formed message of these classes that the implementation refuses - consistently, in
+    // every chunking (the K13 class of defect) - is a violation.  Only for the remaining OPEN / UPDATE contents the
+    // implementation's own decoder says whether the frame is a message (their decoding is C01..C03's subject).
+    match independent_fate(f) {
+        Some(true) => return (Fate::Deliver, len),
+        Some(false) => return (Fate::Refuse, len),
+        None => {}
+    }
     match std::panic::catch_unwind(|| real_decode(f).is_ok()) {
         Ok(true) => (Fate::Deliver, len),
         _ => (Fate::Refuse, len),
     }
+}
+
+/// `Some(true)`: a BGP message by RFC 4271 section 4 alone, `Some(false)`: not one, `None`: depends on OPEN / UPDATE content
+/// this reference does not read.  `f` is a complete frame with a good marker, 19 <= length field = `f.len()` <= 4096.
+fn independent_fate(f: &[u8]) -> Option<bool> {
+    match dec_reference(f) { Some("err") => return Some(false), Some(_) => return Some(true), None => {} }
+    match f[18] {
+        1 => if super::c03::ref_decode_open(f).is_some() { Some(true) } else { None },
+        2 => {
+            // RFC 4271 4.3: withdrawn routes length, the (length, prefix) pairs, total path attribute length 0, no NLRI
+            let b = &f[19..];
+            if b.len() < 4 { return None; }
+            let wl = u16::from_be_bytes([b[0], b[1]]) as usize;
+            if b.len() != 4 + wl || b[2 + wl] != 0 || b[3 + wl] != 0 { return None; }
+            let w = &b[2..2 + wl];
+            let mut i = 0;
+            while i < w.len() {
+                let l = w[i] as usize;
+                let n = (l + 7) / 8;
+                if l > 32 || i + 1 + n > w.len() { return None; }
+                if l % 8 != 0 && w[i + n] & (0xffu8 >> (l % 8)) != 0 { return None; }
+                i += 1 + n;
+            }
+            Some(true)
+        }
+        _ => None,
+    }
+}
+
+/// (audit r5 S6c) `e2e` lines: a ROUTE-REFRESH of RFC 2918 among the frames of the stream is a message the session extracts
+/// and goes on from ("each once and in order"): the tick that reads it returns Ok in the state the session was in, and
+/// the session is not torn down by it (another tick follows: the next frame, or the end of the stream).  Judged while
+/// the frames before it are complete frames whose ticks returned Ok; a session with a running DelayOpenTimer is not
+/// judged (a timer tick may fall between two frames).
+fn judge_e2e_rr(st: &str, d: &str, stream: &[u8], reply: &str) -> Result<(), String> {
+    if d != "0" { return Ok(()); }
+    let ticks: Vec<&str> = reply.split(' ').next().unwrap_or("").split(',').collect();
+    let mut prev = st.to_string();
+    let mut o = 0;
+    for (i, t) in ticks.iter().enumerate() {
+        if stream.len() - o < 19 { return Ok(()); }
+        let len = u16::from_be_bytes([stream[o + 16], stream[o + 17]]) as usize;
+        if len < 19 || stream.len() - o < len { return Ok(()); }
+        let f = &stream[o..o + len];
+        if is_rfc2918_rr(f) {
+            if *t != format!("ok:{}", prev) {
+                return Err(format!("tick #{} reads a well-formed ROUTE-REFRESH in state {}: it must be ignored (Ok, same state), the session answered `{}`", i, prev, t));
+            }
+            if i + 1 == ticks.len() && ticks.len() < 24 {
+                return Err(format!("the session stopped after the ROUTE-REFRESH read by tick #{}: the messages after it are never extracted", i));
+            }
+        }
+        match t.strip_prefix("ok:") { Some(x) => prev = x.to_string(), None => return Ok(()) }
+        o += len;
+    }
+    Ok(())
 }
 
 /// the property on one run: the frames the implementation extracted (hex, in order) and how the run ended
@@ -1090,7 +1156,12 @@ impl Prop for C09 {
                 }
                 Ok(())
             }
-            ["e2e", ..] | ["e2ed", ..] => { if reply.contains("hang") { Err("session task hangs on the peer's bytes".into()) } else { Ok(()) } }
+            ["e2e", st, d, s, ..] => {
+                if reply.contains("hang") { return Err("session task hangs on the peer's bytes".into()); }
+                let s = unhex(s).ok_or("hex")?;
+                judge_e2e_rr(st, d, &s, reply)
+            }
+            ["e2ed", ..] => { if reply.contains("hang") { Err("session task hangs on the peer's bytes".into()) } else { Ok(()) } }
             _ => Ok(()),
         }
     }
